@@ -318,8 +318,60 @@ func (p *peer) acceptCount() int {
 	return p.accepts
 }
 
+var preflight *string
+
+// netPreflight: the loopback interface must really carry a connection (listen, dial, one byte across) before anything is
+// concluded from a request that does not complete; otherwise the loopback cases are skipped
+func netPreflight() string {
+	if preflight != nil {
+		return *preflight
+	}
+	r := func() string {
+		l, err := net.Listen("tcp", "127.0.0.1:0")
+		if err != nil {
+			return "no loopback listener: " + err.Error()
+		}
+		defer l.Close()
+		got := make(chan error, 1)
+		go func() {
+			c, err := l.Accept()
+			if err != nil {
+				got <- err
+				return
+			}
+			defer c.Close()
+			_ = c.SetReadDeadline(time.Now().Add(10 * time.Second))
+			_, err = io.ReadFull(c, make([]byte, 1))
+			got <- err
+		}()
+		c, err := net.DialTimeout("tcp", l.Addr().String(), 10*time.Second)
+		if err != nil {
+			return "loopback dial failed: " + err.Error()
+		}
+		defer c.Close()
+		if _, err := c.Write([]byte{1}); err != nil {
+			return "loopback write failed: " + err.Error()
+		}
+		select {
+		case err := <-got:
+			if err != nil {
+				return "loopback read failed: " + err.Error()
+			}
+		case <-time.After(15 * time.Second):
+			return "loopback byte did not arrive"
+		}
+		return ""
+	}()
+	preflight = &r
+	return r
+}
+
 // checkNetRelay runs one case; a failure is believed only if it shows on every one of three runs
 func checkNetRelay(res *vrt.Result, nc netCase) (ran bool) {
+	if why := netPreflight(); why != "" {
+		res.Info["net_relay"] = "skipped: " + why
+		return false
+	}
 	var msg string
 	for try := 0; try < 3; try++ {
 		msg = runNetCase(nc)
